@@ -176,3 +176,189 @@ Proof.
     - split; [|reflexivity]. unfold wbuild_ok. cbn. repeat split; try discriminate; repeat constructor. }
   eexists. split; vm_compute; reflexivity.
 Qed.
+
+(* ---------------------------------------------------------------------------------------------------------------
+   The ENVIRONMENT channel (builtins/command.py ninja_command: cmd = shell.global_env(rule.env, rule.cmds);
+   builtins/tests.py: local_env per test).  W side: global_env / local_env / join_lines of shell/posix.py
+   (Shell/PosixEnv.v) and Writer.write_shell of backends/ninja/syntax.py on the flat item list (every str bit quoted,
+   every bit dollar-escaped, a blank between the items: nwrite_each on item_nfrags, Ninja/NinjaEnv.v).  R side: the
+   Ninja lexer in value mode, evaluation of the generic rule  command = ${cmd}  with the edge binding cmd, then
+   sh_run = the sh model with assignment words, export, tilde expansion and the environment carried along an && list
+   (Shell/Sh.v, validated against the real dash).  *)
+From BFG Require Import Shell.PosixEnv Shell.PosixEnvProofs Ninja.NinjaEnv Ninja.NinjaEnvProofs.
+From Coq Require Import String.
+
+(* every list of items (words, NAME=value words, shell literals such as && or a whole string-form command line):
+   the written binding is always lexed by Ninja, and sh runs on the command of the edge exactly as on the sh text
+   of the items: the dollar doubling is undone for every text, whatever the file scope, in and out hold *)
+Theorem C02_items_through_ninja : forall uw env0 file ins outs items text,
+  nwrite_each uw (map item_nfrags items) NShell = Some text ->
+  exists ts, lex_value text = Some ts /\
+    sh_run uw env0 (rule_command file (eval_edge_bindings file [] [(s_cmd, ts)]) ins outs [TV s_cmd]) =
+    sh_run uw env0 (sh_text uw items).
+Proof. exact items_ninja. Qed.
+Print Assumptions C02_items_through_ninja.
+
+(* a step (command / build_step): for every environment whose names are identifiers (other than OPTIND) and ALL values,
+   every initial environment env0 and every non-empty list of command lines whose command words do not read as an
+   assignment and are not shell builtins (cmds_ok, the guard of C01_env_global): if the Ninja writer writes the items of
+   global_env as text, Ninja lexes the text, and the command it hands to sh starts exactly the processes cmds, in order,
+   each with exactly its words and each in the environment env0 overridden by env (the last declaration of a name
+   wins), and the whole list runs *)
+Theorem C02_env_through_ninja : forall uw env0 file ins outs env cmds text,
+  forallb name_ok (map fst env) = true -> cmds_ok uw cmds = true ->
+  nwrite_each uw (map item_nfrags (global_env env (map words_line cmds))) NShell = Some text ->
+  exists ts penv,
+    lex_value text = Some ts /\
+    sh_run uw env0 (rule_command file (eval_edge_bindings file [] [(s_cmd, ts)]) ins outs [TV s_cmd]) =
+      Some (mkprocs penv cmds, true) /\
+    forall n, env_get penv n = match assoc_last env n with Some x => Some x | None => assoc_last env0 n end.
+Proof. exact env_global_ninja. Qed.
+Print Assumptions C02_env_through_ninja.
+
+(* a test: the same for  NAME=value ... cmd words  (local_env) *)
+Theorem C02_env_local_through_ninja : forall uw env0 file ins outs env cmd text,
+  forallb name_ok (map fst env) = true -> cmd_ok uw cmd = true ->
+  nwrite_each uw (map item_nfrags (local_env env (words_line cmd))) NShell = Some text ->
+  exists ts penv,
+    lex_value text = Some ts /\
+    sh_run uw env0 (rule_command file (eval_edge_bindings file [] [(s_cmd, ts)]) ins outs [TV s_cmd]) =
+      Some (mkprocs penv [cmd], true) /\
+    forall n, env_get penv n = match assoc_last env n with Some x => Some x | None => assoc_last env0 n end.
+Proof. exact env_local_ninja. Qed.
+Print Assumptions C02_env_local_through_ninja.
+
+Definition c02_nu : char -> bool := fun _ => false.
+Definition c02_env0 : list (str * str) := [(STR "HOME", STR "/h"); (STR "PATH", STR "/bin")].
+Definition c02_env : list (str * str) :=
+  [(STR "VAR", STR "~/x:~"); (STR "A_1", STR "it's a=b:~ $HOME $$ ${cmd} ''"); (STR "x", []); (STR "P", STR "a:~/b");
+   (STR "VAR", STR "=~ ""q"" $")].
+Definition c02_cmds : list (list str) := [[STR "cc"; STR "~"; STR "a b"; STR "X=~"; STR "$out"]; [STR "ld"; STR "~/y"; []]].
+(* a file scope in which every name is bound: none of it may leak into the command *)
+Definition c02_file : nenv := fun _ => STR "FILE".
+
+(* non-vacuity: values with dollars (single, doubled, a variable reference), tildes, colons, equals signs, single and
+   double quotes, blanks, an empty value, a name declared twice; the guards hold, the text is written and lexed, and the
+   run is computed *)
+Example C02_env_through_ninja_nonvacuous :
+  forallb name_ok (map fst c02_env) = true /\ cmds_ok c02_nu c02_cmds = true /\
+  exists text ts,
+    nwrite_each c02_nu (map item_nfrags (global_env c02_env (map words_line c02_cmds))) NShell = Some text /\
+    lex_value text = Some ts /\
+    match sh_run c02_nu c02_env0
+            (rule_command c02_file (eval_edge_bindings c02_file [] [(s_cmd, ts)]) (STR "IN") (STR "OUT") [TV s_cmd]) with
+    | Some ([p1; p2], true) =>
+      p_argv p1 = [STR "cc"; STR "~"; STR "a b"; STR "X=~"; STR "$out"] /\ p_argv p2 = [STR "ld"; STR "~/y"; []] /\
+      p_env p1 = p_env p2 /\
+      env_get (p_env p1) (STR "VAR") = Some (STR "=~ ""q"" $") /\
+      env_get (p_env p1) (STR "A_1") = Some (STR "it's a=b:~ $HOME $$ ${cmd} ''") /\
+      env_get (p_env p1) (STR "x") = Some [] /\ env_get (p_env p1) (STR "P") = Some (STR "a:~/b") /\
+      env_get (p_env p1) (STR "HOME") = Some (STR "/h") /\ env_get (p_env p1) (STR "Q") = None
+    | _ => False
+    end.
+Proof.
+  split; [reflexivity|]. split; [reflexivity|]. eexists. eexists. split; [vm_compute; reflexivity|].
+  split; [vm_compute; reflexivity|]. vm_compute. repeat split.
+Qed.
+
+Example C02_env_local_through_ninja_nonvacuous :
+  cmd_ok c02_nu (hd [] c02_cmds) = true /\
+  exists text ts,
+    nwrite_each c02_nu (map item_nfrags (local_env c02_env (words_line (hd [] c02_cmds)))) NShell = Some text /\
+    lex_value text = Some ts /\
+    match sh_run c02_nu c02_env0
+            (rule_command c02_file (eval_edge_bindings c02_file [] [(s_cmd, ts)]) (STR "IN") (STR "OUT") [TV s_cmd]) with
+    | Some ([p1], true) =>
+      p_argv p1 = [STR "cc"; STR "~"; STR "a b"; STR "X=~"; STR "$out"] /\
+      env_get (p_env p1) (STR "VAR") = Some (STR "=~ ""q"" $") /\
+      env_get (p_env p1) (STR "A_1") = Some (STR "it's a=b:~ $HOME $$ ${cmd} ''") /\
+      env_get (p_env p1) (STR "P") = Some (STR "a:~/b") /\ env_get (p_env p1) (STR "HOME") = Some (STR "/h")
+    | _ => False
+    end.
+Proof.
+  split; [reflexivity|]. eexists. eexists. split; [vm_compute; reflexivity|].
+  split; [vm_compute; reflexivity|]. vm_compute. repeat split.
+Qed.
+
+(* the R side is not blind: the same kind of words written WITHOUT the dollar doubling are evaluated by Ninja (the
+   reference to the file-level variable is replaced), and written without quotes sh expands the tilde *)
+Example C02_env_model_not_blind :
+  match lex_value (STR "export P=a:~/b && VAR=${x} cc $y.c") with
+  | Some ts =>
+    match sh_run c02_nu c02_env0
+            (rule_command c02_file (eval_edge_bindings c02_file [] [(s_cmd, ts)]) (STR "IN") (STR "OUT") [TV s_cmd]) with
+    | Some ([p1], true) =>
+      p_argv p1 = [STR "cc"; STR "FILE.c"] /\ env_get (p_env p1) (STR "P") = Some (STR "a:/h/b") /\
+      env_get (p_env p1) (STR "VAR") = Some (STR "FILE")
+    | _ => False
+    end
+  | None => False
+  end.
+Proof. vm_compute. repeat split. Qed.
+
+(* string-form command lines: for EVERY non-empty list of lines - word lists and raw strings (one shell_literal item each,
+   which may start any number of processes), in any mixture - the command Ninja hands to sh for the binding written from
+   global_env runs exactly as the lines alone (join_lines: the lines as they are, && between them) run in a shell whose
+   variables are those of env0 with every name of env set to its value and marked exported BEFORE the first line starts:
+   so every process of every line inherits env (sh_run_in = sh_run from the given shell state, Ninja/NinjaEnv.v).
+   No guard on the lines: where the sh model does not cover a line both sides are None. *)
+Theorem C02_env_lines_through_ninja : forall uw env0 file ins outs env ls text,
+  forallb name_ok (map fst env) = true -> ls <> [] ->
+  nwrite_each uw (map item_nfrags (global_env env ls)) NShell = Some text ->
+  exists ts, lex_value text = Some ts /\
+    sh_run uw env0 (rule_command file (eval_edge_bindings file [] [(s_cmd, ts)]) ins outs [TV s_cmd]) =
+    sh_run_in uw (declare env (sv_init env0)) (sh_text uw (join_lines ls)).
+Proof. exact env_lines_ninja. Qed.
+Print Assumptions C02_env_lines_through_ninja.
+
+Example C02_env_lines_through_ninja_nonvacuous :
+  let ls := [words_line [STR "cc"; STR "a b"]; LRaw (STR "first '$x' && second ~"); words_line [STR "ld"; STR "$y"]] in
+  exists text ts,
+    nwrite_each c02_nu (map item_nfrags (global_env c02_env ls)) NShell = Some text /\ lex_value text = Some ts /\
+    match sh_run_in c02_nu (declare c02_env (sv_init c02_env0)) (sh_text c02_nu (join_lines ls)),
+          sh_run c02_nu c02_env0
+            (rule_command c02_file (eval_edge_bindings c02_file [] [(s_cmd, ts)]) (STR "IN") (STR "OUT") [TV s_cmd]) with
+    | Some ([p1; p2; p3; p4], true), Some (l, true) =>
+      l = [p1; p2; p3; p4] /\
+      p_argv p1 = [STR "cc"; STR "a b"] /\ p_argv p2 = [STR "first"; STR "$x"] /\ p_argv p3 = [STR "second"; STR "/h"] /\
+      p_argv p4 = [STR "ld"; STR "$y"] /\
+      Forall (fun p => env_get (p_env p) (STR "VAR") = Some (STR "=~ ""q"" $") /\ env_get (p_env p) (STR "x") = Some []) l
+    | _, _ => False
+    end.
+Proof.
+  eexists. eexists. split; [vm_compute; reflexivity|]. split; [vm_compute; reflexivity|]. vm_compute.
+  repeat split. repeat constructor.
+Qed.
+
+(* WHY a step must use global_env: a command line given in string form is ONE item (a shell_literal, LRaw) that may
+   start several processes.  Written with local_env ( VAR=value first x && second 'y z' ) only the FIRST process receives
+   the variable; written with global_env ( export VAR=value && first x && second 'y z' ) both do.  (The seeded change
+   seed-C02-4 switched ninja_command to local_env for a lone command line.) *)
+Theorem C02_env_local_shell_line_refuted : exists env line,
+  forallb name_ok (map fst env) = true /\
+  (exists text ts,
+    nwrite_each c02_nu (map item_nfrags (local_env env (LRaw line))) NShell = Some text /\
+    lex_value text = Some ts /\
+    match sh_run c02_nu c02_env0
+            (rule_command c02_file (eval_edge_bindings c02_file [] [(s_cmd, ts)]) (STR "IN") (STR "OUT") [TV s_cmd]) with
+    | Some ([p1; p2], true) =>
+      p_argv p1 = [STR "first"; STR "x"] /\ p_argv p2 = [STR "second"; STR "y z"] /\
+      env_get (p_env p1) (STR "VAR") = Some (STR "a b$:~") /\ env_get (p_env p2) (STR "VAR") = None
+    | _ => False
+    end) /\
+  (exists text ts,
+    nwrite_each c02_nu (map item_nfrags (global_env env [LRaw line])) NShell = Some text /\
+    lex_value text = Some ts /\
+    match sh_run c02_nu c02_env0
+            (rule_command c02_file (eval_edge_bindings c02_file [] [(s_cmd, ts)]) (STR "IN") (STR "OUT") [TV s_cmd]) with
+    | Some ([p1; p2], true) =>
+      p_argv p1 = [STR "first"; STR "x"] /\ p_argv p2 = [STR "second"; STR "y z"] /\
+      env_get (p_env p1) (STR "VAR") = Some (STR "a b$:~") /\ env_get (p_env p2) (STR "VAR") = Some (STR "a b$:~")
+    | _ => False
+    end).
+Proof.
+  exists [(STR "VAR", STR "a b$:~")], (STR "first x && second 'y z'"). split; [reflexivity|]. split.
+  - eexists. eexists. split; [vm_compute; reflexivity|]. split; [vm_compute; reflexivity|]. vm_compute. repeat split.
+  - eexists. eexists. split; [vm_compute; reflexivity|]. split; [vm_compute; reflexivity|]. vm_compute. repeat split.
+Qed.
+Print Assumptions C02_env_local_shell_line_refuted.
